@@ -189,6 +189,8 @@ func xrSide(s *simkube.Store, c config) {
 	st := map[string]any{
 		"out":   "o1",
 		"count": int64(0),
+		// User status fields named like members of the bookkeeping entries.
+		"message": "u-message", "reason": "u-reason", "type": "u-type", "status": "u-status", "lastPublishedTime": "u-time",
 		"nestedOut": map[string]any{
 			"conditions":          []any{map[string]any{"type": "UserCond", "status": "True"}},
 			"connectionDetails":   map[string]any{"lastPublishedTime": "user-value"},
